@@ -223,3 +223,8 @@ k("krum-pairwise-distance-eps0", ["C16", "C08", "C10", "C11"], A + "krum.py", _C
 b("krum-pairwise-distance-default-eps", ["C08", "C16"], A + "krum.py", _CD, "F.pairwise_distance(matrix.unsqueeze(1), matrix.unsqueeze(0))", "eps=1e-6 added to every coordinate of the differences")
 # a transform memoising constructor data is still a function of its input (C15 S); the cached row blocks of seeded/C15-r6B are not
 k("jac-memoised-lengths", ["C15", "C01", "C07", "C13"], "@seed", _os.path.join(_PD, "jac-memoised-lengths.diff"), "")
+# NashMTL cap written as one expression: the correct form is silent, the form that also multiplies un-capped weights by max_norm is in seeded/C19-r7A
+k("nashmtl-cap-where", ["C19", "C11"], A + "nash_mtl.py", "            if norm > self.max_norm:\n                alpha = (alpha / norm) * self.max_norm\n",
+  "            alpha = alpha * torch.where(norm > self.max_norm, self.max_norm / norm, 1.0)\n")
+# TrimmedMean through two partial selections (see seeded_keep/C16-r7K2): the twin that trims on one side only
+b("trimmedmean-topk-wrong-side", ["C16"], "@seed", _os.path.join(_PD, "trimmedmean-topk-wrong-side.diff"), "", "keeps the m - 2b smallest entries of every column")
